@@ -77,6 +77,88 @@ def ob_pointload(canary=False):
 
 # ---------------------------------------------------------------- exhaustive: exclusive element selection
 
+def _beam_lineload(dim, timo, et, inclined, form, unknown, nL=3):
+    import contextlib, io
+    from EasyFEA import Models, Simulations, Mesher, ElemType
+    from EasyFEA.Geoms import Domain, Point, Line
+    with contextlib.redirect_stdout(io.StringIO()):
+        sect = Mesher().Mesh_2D(Domain(Point(), Point(0.3, 0.5)), elemType=ElemType.QUAD4)
+        L = 3.0
+        if dim == 1 or not inclined:
+            p2 = np.array([L, 0, 0])
+        elif dim == 2:
+            p2 = np.array([L * 0.6, L * 0.8, 0])
+        else:
+            p2 = np.array([L / 3, 2 * L / 3, 2 * L / 3])
+        line = Line(Point(0, 0, 0), Point(*p2), L / nL)
+        beam = Models.Beam.Isotropic(dim, line, sect, 210e3, v=0.3)
+        mesh = Mesher().Mesh_Beams([beam], elemType=ElemType[et])
+        simu = Simulations.Beam(mesh, beam, useTimoshenko=timo)
+    co = np.asarray(mesh.coord)
+    t = p2 / np.linalg.norm(p2)
+    s = co @ t
+    nodes = mesh.nodes
+    q0, q1 = 2.0, 0.7
+    if form == "const":
+        val = q0
+    elif form == "func":
+        val = lambda x, y, z: q0 + q1 * (x * t[0] + y * t[1] + z * t[2])
+    else:
+        val = q0 + q1 * s[nodes]
+    q = (lambda ss: q0 + 0 * ss) if form == "const" else (lambda ss: q0 + q1 * ss)
+    simu.add_lineLoad(nodes, [val], [unknown])
+    F = simu.Bc_vector_Neumann()
+    F = np.asarray(F.todense()).ravel() if hasattr(F, "todense") else np.asarray(F).ravel()
+    dn = simu.Get_dof_n()
+    F = F.reshape(mesh.Nn, dn)
+    unk = simu.Get_unknowns()
+    rot = unknown.startswith("r")
+    ev = np.eye(3)[{"x": 0, "y": 1, "z": 2}[unknown[-1]]]
+    from numpy.polynomial.legendre import leggauss
+    xg, wg = leggauss(6)
+    ss, ww = (xg + 1) / 2 * L, wg * L / 2
+    tot = float(np.sum(ww * q(ss)))
+    if rot:       # distributed couple about a global axis: no resultant force, resultant moment = integral
+        Rex, Mex = np.zeros(3), ev * tot
+    else:
+        Rex = ev * tot
+        Mex = np.sum([w * np.cross(si * t, ev * q(si)) for si, w in zip(ss, ww)], axis=0)
+    f, m = np.zeros((mesh.Nn, 3)), np.zeros((mesh.Nn, 3))
+    for i, u in enumerate(unk):
+        if u in "xyz":
+            f[:, "xyz".index(u)] = F[:, i]
+        else:
+            m[:, ["rx", "ry", "rz"].index(u)] = F[:, i]
+    R = f.sum(0)
+    M = np.cross(co, f).sum(0) + m.sum(0)
+    return R, Rex, M, Mex
+
+
+def ob_beam_lineload(dim, timo, inclined):
+    """line loads on beams (Euler-Bernoulli: Hermitian consistent loads with nodal couples; Timoshenko: Lagrange): for every unknown the simulation
+    accepts, constant / linear-function / linear-nodal-array intensities: resultant force == integral of the density along the GLOBAL direction of the
+    unknown, resultant moment about the origin (nodal forces x lever arms + nodal couples) == moment of the density."""
+    n = 0
+    unknowns = {1: ["x"], 2: ["x", "y", "rz"], 3: ["x", "y", "z", "rx", "ry", "rz"]}[dim]
+    for et in ("SEG2", "SEG3"):
+        for form in ("const", "func", "array"):
+            for unknown in unknowns:
+                try:
+                    R, Rex, M, Mex = _beam_lineload(dim, timo, et, inclined, form, unknown)
+                except Exception as ex:
+                    raise Refuted(f"add_lineLoad on a {dim}-D {'Timoshenko' if timo else 'Euler-Bernoulli'} {et} beam, unknown {unknown}, {form} intensity raises {type(ex).__name__}: {ex}",
+                                  cex=dict(dim=dim, timoshenko=timo, elemType=et, inclined=inclined, form=form, unknown=unknown), signature=f"beamload:{dim}:{timo}:raises", replay=dict(confirmed=True))
+                n += 2
+                sc = max(np.abs(Rex).max(), np.abs(Mex).max(), 1.0)
+                eR, eM = float(np.abs(R - Rex).max() / sc), float(np.abs(M - Mex).max() / sc)
+                if not (eR < 1e-9 and eM < 1e-9):
+                    raise Refuted(f"{dim}-D {'Timoshenko' if timo else 'Euler-Bernoulli'} {et} beam{' (inclined)' if inclined else ''}, line load on '{unknown}' ({form}): resultant {np.round(R, 6).tolist()} vs "
+                                  f"integral of the density {np.round(Rex, 6).tolist()}; moment {np.round(M, 6).tolist()} vs {np.round(Mex, 6).tolist()}",
+                                  cex=dict(dim=dim, timoshenko=timo, elemType=et, inclined=inclined, form=form, unknown=unknown), signature=f"beamload:{dim}:{timo}:{inclined}",
+                                  replay=dict(confirmed=True, err_resultant=eR, err_moment=eM))
+    return Verdict(DISCHARGED, backend="native run vs 6-point Gauss integrals of the density", sub=n)
+
+
 def ob_exclusive(meshname):
     from EasyFEA.FEM._group_elem import GroupElemFactory
     from EasyFEA.FEM._utils import ElemType
@@ -303,6 +385,13 @@ def build(tier, seed):
         for kind in ("face", "line3d", "volume", "pressure"):
             obs.append(Ob(f"C09.load.{et}.{kind}", ob_load, (et, kind, seed), "X", fl, bound="one gmsh box mesh, random polynomial coefficients (seeded), floats",
                           clause="resultant and first moments equal the closed-form integrals (x thickness in 2-D); stray nodes contribute nothing", timeout=600))
+    for dim in (1, 2, 3):
+        for timo in (False, True):
+            for inclined in ((False, True) if dim > 1 else (False,)):
+                obs.append(Ob(f"C09.beam.lineload.{dim}d.{'timoshenko' if timo else 'bernoulli'}{'.inclined' if inclined else ''}", ob_beam_lineload, (dim, timo, inclined), "X",
+                              ("EasyFEA/Simulations/_beam.py::Beam.add_lineLoad", "EasyFEA/FEM/Elems/_beam.py::_Euler_Bernoulli.Get_beam_N_e_pg"),
+                              bound="one 3-element beam, SEG2 and SEG3, constant / linear function / linear nodal array, every unknown", timeout=600,
+                              clause="nodal forces and couples of a line load on a beam: resultant == integral of the density along the global direction of the unknown; moment about the origin == moment of the density"))
     obs.append(Ob("canary.pointload", ob_pointload, (True,), "P", expect=REFUTED))
     functions = {q: extract.get(SP, f"_Simu.{q}").describe() for q in ("__Bc_Integration_Dim", "__Bc_pointLoad", "__Bc_pressureload", "add_surfLoad", "add_lineLoad", "add_volumeLoad")}
     functions["Get_Elements_Nodes"] = extract.get(GP, "_GroupElem.Get_Elements_Nodes").describe()
@@ -312,8 +401,8 @@ def build(tier, seed):
                      "enumerated exhaustively over all node subsets of small meshes. Resultants, first moments, thickness factor, stray nodes and pressure are run-time "
                      "contracts of the real load API on gmsh-generated box meshes (boundary groups as generated, prism meshes with mixed boundary) against closed-form integrals."),
         trusted_base=["C06 partition of unity / linear completeness, C07 exactness of the rules", "gmsh mesher (external) for the X-tier meshes", "sympy integration for the closed forms"],
-        assumptions=["box domains with straight faces; polynomial intensities up to the rule's degree; one thickness value", "beam Hermitian line loads not covered"],
+        assumptions=["box domains with straight faces; polynomial intensities up to the rule's degree; one thickness value", "beam line loads: bounded native runs on one beam (C09.beam.lineload.*)"],
         functions=functions,
         dropped=["P: D1-D5; X: imported code unmodified"],
-        not_attempted=["Hermitian line loads of beams (Simulations/_beam.py:176-275)"],
+        not_attempted=[],
     )
